@@ -61,6 +61,12 @@ def make_headers(nh, ows, vform, rnd):
     raw, exp = [], []
     for i in range(nh):
         name = rnd.choice(["X-A", "Server", "Date", "ETag", "X-Long-Header-Name", "a", "Content-Type"]) + (str(i) if nh > 6 else "")
+        confusable = None
+        if vform not in ("long",) and rnd.random() < 0.12:
+            # names that merely begin or end like a framing header are ordinary headers, whatever they say
+            name, confusable = rnd.choice([("Content-Length-Limit", "3"), ("Content-Lengths", "3, 4"), ("X-Content-Length", "1"), ("Content-Length2", "0"),
+                                           ("Transfer-Encoding-Supported", "chunked, gzip"), ("Transfer-Encodings", "chunked"), ("X-Transfer-Encoding", "chunked"),
+                                           ("Content-Lengt", "7"), ("Transfer-Encodin", "chunked")])
         if vform == "empty" and i % 2 == 0:
             val = ""
         elif vform == "colon":
@@ -69,6 +75,8 @@ def make_headers(nh, ows, vform, rnd):
             val = "v" * (rnd.choice([100, 1000, 3000]) if nh <= 5 else 100)      # header block stays below the client's 64 KiB limit
         else:
             val = rnd.choice(["x", "text/plain; charset=utf-8", "Mon, 01 Jan 2001 00:00:00 GMT", "1"])
+        if confusable is not None:
+            val = confusable
         pre = {"none": "", "sp": " ", "tab": "\t", "both": " \t ", "trail": " "}[ows]
         post = {"none": "", "sp": "", "tab": "", "both": " \t", "trail": "  \t"}[ows]
         raw.append((name + ":" + pre + val + post).encode())
@@ -88,7 +96,10 @@ def wellformed(s, rnd, seed, align=None):
     body = body_bytes(n, seed)
     raw, exp = make_headers(s["nhdr"], s["ows"], s["vform"], rnd)
     if framing == "clen":
-        fh, fe = b"Content-Length: %d" % (0 if nobody and rnd.random() < 0.5 else n), ("Content-Length", None)
+        cl = 0 if nobody and rnd.random() < 0.5 else n
+        # Content-Length = 1*DIGIT: leading zeros are part of the grammar (and must not turn the number into octal)
+        fh = (b"Content-Length: %0*d" % (rnd.choice([2, 3, 10, 19]) + len(str(cl)) - 1, cl)) if rnd.random() < 0.2 else (b"Content-Length: %d" % cl)
+        fe = ("Content-Length", None)
     elif framing == "chunked":
         fh, fe = b"Transfer-Encoding: chunked", ("Transfer-Encoding", "chunked")
     else:
